@@ -29,6 +29,12 @@ NOTES = {
     "C02-m6": "round 2; caught by the strictness family (zero-argument functions), added while this round was running",
     "C02-m4": "round 2; and / or / xor on byte arrays with a non-constant flag: family added while this round was running",
     "C07-m2": "ported onto the repaired ListSwitch code (patch_original.diff is the agent's patch against the code before fix 8a035ae)",
+    "C07-m4": "round 3; missed while only `when` was enumerated: every single pattern of MC_Match is now also checked under `let` (accepted iff irrefutable)",
+    "C12-m4": "round 3; missed until a type with ONE explicitly written constructor carrying its own @tag was added (Solo, Solo2)",
+    "C12-m5": "round 3; missed while each conversion was compiled in a program of its own: pairs of sibling instances are now converted in one program and compared with what each does alone",
+    "C13-m5": "round 3; missed until negative integer patterns in hexadecimal / with digit grouping were generated",
+    "C19-m5": "round 3; missed until a variant with every spent / referenced output coming from ONE previous transaction was added",
+    "C19-m6": "round 3; missed while the model had no Plutus V1: MC_TxSimV1.cfg added",
     "C03-m1": "missed until the `closure` profile was added to MC_Cek",
     "C04-m3": "missed until builtin chains (group `chains`) and 64-bit boundary integers were added",
     "C01-m1": "caught by C07 only after ListIntSmall with K = 3 was added",
